@@ -209,6 +209,32 @@ def main(tier, seed):
             time.sleep(0.1)
         if not up:
             violations.append(("server-does-not-start", "no 200 on /health after start"))
+        # the very first request of the process is a minimal instance, one of the last a demanding one without depots: whatever
+        # the process remembers from its first instance must not be applied to a later one (seeded C18i: a memoised bound)
+        def solve_and_validate(inst0, tag, what):
+            nonlocal total, validated
+            inst = nonce_instance(inst0, tag)
+            q = {"kind": "valid", "payload": json.dumps(inst), "inst": inst, "tag": tag}
+            q["status"], q["body"] = request(port, "valid", q["payload"], timeout=120)
+            total += 1
+            counts["%s->%s" % (what, q["status"])] = 1
+            if q["status"] != 200:
+                violations.append(("valid-request-not-answered", "POST /solve (%s, %s) -> %s" % (what, tag, q["status"])))
+            else:
+                err = validate_solution(d, q, total)
+                validated += 1
+                if err:
+                    violations.append(("wrong-solution", "request %s: %s" % (tag, err)))
+        tiny = {"vehicleTypes": [{"id": "T", "capacity": 100, "seats": 50}], "locations": [{"id": "A"}, {"id": "B"}],
+                "routes": [{"id": "rAB", "vehicleType": "T", "segments": [{"id": "rAB_s", "order": 0, "origin": "A",
+                            "destination": "B", "distance": 10000, "duration": 1800}]}],
+                "departures": [{"id": "d0", "route": "rAB", "segments": [{"id": "d0_s", "routeSegment": "rAB_s",
+                                "departure": instgen.iso(7200), "passengers": 10, "seated": 5}]}],
+                "deadHeadTrips": {"indices": ["A", "B"], "durations": [[0, 1800], [1800, 0]], "distances": [[0, 10000], [10000, 0]]},
+                "parameters": {"shunting": {"minimalDuration": 60, "deadHeadTripDuration": 120},
+                               "costs": {"staff": 1, "serviceTrip": 1, "maintenance": 0, "deadHeadTrip": 2, "idle": 1}}}
+        if up:
+            solve_and_validate(tiny, "first_", "first-tiny")
         for rnd in range(rounds if up else 0):
             reqs = run_round(port, rng, d, rnd, nreq, 16)
             for k, q in enumerate(reqs):
@@ -351,6 +377,16 @@ def main(tier, seed):
                         validated += 1
                         if err:
                             violations.append(("wrong-solution", "request %s: %s" % (v["tag"], err)))
+        if up and srv.poll() is None:
+            # demanding and without depots: six overlapping trips, nine coupled vehicles each, no formation limit
+            heavy = json.loads(json.dumps(tiny))
+            heavy["routes"].append({"id": "rBA", "vehicleType": "T", "segments": [{"id": "rBA_s", "order": 0, "origin": "B",
+                                    "destination": "A", "distance": 10000, "duration": 1800}]})
+            heavy["departures"] = [{"id": "h%d" % j, "route": "rAB" if j % 2 == 0 else "rBA",
+                                    "segments": [{"id": "h%d_s" % j, "routeSegment": "rAB_s" if j % 2 == 0 else "rBA_s",
+                                                  "departure": instgen.iso(7200 + 300 * j), "passengers": 900, "seated": 450}]}
+                                   for j in range(6)]
+            solve_and_validate(heavy, "heavy_", "late-heavy-without-depots")
         # a long run of failing requests (one after the other, loader-level and late panics alternating), then a valid one:
         # whatever a failed request leaves behind must not add up (seeded C18h: a counter leaked by every panic shuts the
         # service after 32 of them)
